@@ -160,8 +160,13 @@ def slice_view(b, l, depth=0):
                 return slice_view(b, pl['l'], depth + 1)
             flds = [e for e in proj if e['k'] == 'field']
             if len(proj) == 1 and flds:
-                # field of a tuple produced by split_at(k)
+                # field of a tuple produced by split_at(k) (possibly handed on by whole moves: `let pair = helper()?`)
                 src = b.single_def(pl['l'])
+                hops_ = 0
+                while src and hops_ < 6 and src[1] == 'assign' and not src[2]['place']['p'] and src[2]['rv']['k'] == 'use' \
+                        and src[2]['rv']['op']['k'] in ('copy', 'move') and not src[2]['rv']['op']['place']['p']:
+                    src = b.single_def(src[2]['rv']['op']['place']['l'])
+                    hops_ += 1
                 if src and src[1] == 'call' and re.search(r'::split_at(_mut|_checked|_mut_checked|_unchecked)?$', src[2].name):
                     base = slice_view(b, src[2].arg_local(0), depth + 1)
                     k = _const_of(b, src[2].args[1]) if len(src[2].args) > 1 else None
